@@ -20,7 +20,7 @@ CLAIMED = {
 }
 
 # properties whose check exists but is being reworked: not claimed until it passes on the unchanged tree again
-HOLD = {"C15": "shares the grid generator with C14, which is being adapted to the repaired transpose_vec (fd4cfc7); not claimed until it passes again", "C14": "check being adapted to the repaired transpose_vec (fix commit fd4cfc7); not claimed until it passes again"}
+HOLD = {}
 
 # further claims: props/<id>.manifest.json with keys text, note, technique, design
 for _p in ALL:
